@@ -334,6 +334,33 @@ func runFS(o fsOpts) *result {
 						// C16: populate (snapshot of the index on the way), then a crash/cut of the tape
 						// (sometimes), a fresh process over the tape with the index kept, dropped or stale,
 						// Initialize, and more calls
+						variantB := j%5 == 4 // index rebuilt by an index-less open earlier; crash; same index kept
+						if variantB {
+							if i == pivot/2 {
+								return h.Call{Method: "@reopen", Args: []string{"index=drop", "ro=0"}}, true
+							}
+							if i == pivot/2+1 {
+								return initCall, true
+							}
+							if i == pivot-1 {
+								pts := tailCuts(filepath.Join(dir, "drive.tar"))
+								if len(pts) > 0 {
+									didCut = true
+									return h.Call{Method: "@cuttape", Args: []string{fmt.Sprint(pts[(j/5)%len(pts)])}}, true
+								}
+							}
+							if i == pivot {
+								return h.Call{Method: "@reopen", Args: []string{"index=keep", "ro=0"}}, true
+							}
+							if i == pivot+1 {
+								return initCall, true
+							}
+							if i > pivot+1 && didCut {
+								// an index ahead of the tape: only the non-destructiveness of the open is in scope
+								return h.Call{}, false
+							}
+							break
+						}
 						if i == pivot/2 {
 							if fi, err := os.Stat(filepath.Join(dir, "drive.tar")); err == nil {
 								snapLen = fi.Size()
